@@ -507,6 +507,11 @@ impl OcflStore for FsOcflStore {
 
         let storage_path = self.storage_root.join(&object_root);
 
+        // Without a storage layout, a different object may be created at this path later
+        if let Ok(mut cache) = self.id_path_cache.write() {
+            cache.remove(object_id);
+        }
+
         // A storage layout may map an ID to a path outside of the storage root, to a path inside
         // of another object, to a directory that other objects are stored beneath, or to the root
         // of an object with a different ID. None of these is the object that was asked for.
